@@ -25,7 +25,7 @@ BOUNDS = {'whole': None, 'aligned': (0.09, 0.27), 'lower-mid': (0.06, 0.27),
           'thin-caps': (0.00002, 0.35997),
           # bounds with seven decimals in metres (what a conversion from inches gives), next to power-cell bounds
           'fine7': (0.0900004, 0.2699994)}
-ORDER_SHAPES = {0: 'flat', 1: 'up', 2: 'mid', 3: 'cubic'}
+ORDER_SHAPES = {0: 'flat', 1: 'up', 2: 'mid', 3: 'cubic', 's': 'steep'}
 COMPS = {'all': ('pins', 'duct', 'cool'), 'pins': ('pins',), 'duct': ('duct',), 'cool': ('cool',),
          'pins+duct': ('pins', 'duct'), 'pins+cool': ('pins', 'cool'), 'duct+cool': ('duct', 'cool')}
 STEPS = {'limit': None, 'half': 'half', '3.7mm': 0.0037, '1mm': 0.001, '1/256': 1.0 / 256}
@@ -83,7 +83,7 @@ def build(c):
         if c.get('zero_cell') is not None and c['zero_cell'] < ncell:
             amp[c['zero_cell']] = 0.0
         spec = {'rings': rings, 'nduct': nd, 'cells': cells, 'q': 6000.0 * (1 + 0.2 * i),
-                'axial': [ORDER_SHAPES[c['order']]] * ncell, 'amp': amp, 'order': c['order'],
+                'axial': [ORDER_SHAPES[c['order']]] * ncell, 'amp': amp, 'order': 1 if c['order'] == 's' else c['order'],
                 'seed': (c.get('seed', 0) + i) % 4}
         for k_ in ('pins', 'duct', 'cool'):
             spec[k_] = 'asym' if k_ in comp else None
@@ -114,7 +114,8 @@ def sweep_once(c, scale_override=None):
     if step is not None:
         scn['setup']['axial_mesh_size'] = step
     with S.Built(scn) as b:
-        rx = b.reactor()
+        # 'out': the model is built the way the command line does it, writing its summary (reporting only)
+        rx = b.reactor(write_output=True) if c.get('out') else b.reactor()
         if c.get('rebuild'):
             # the same input (and the same power file) built a second / third time in this process: what is
             # deposited by the LAST model must still be what the file assigns
@@ -229,6 +230,13 @@ def cases(tier):
         base = dict(cells='c3', bounds='both-mid', order=2, comps='all', step='limit')
         for comps in COMPS:
             out.append(dict(base, comps=comps))
+        # a steep profile in the cells the bundle ends in; models built with their summary written
+        for bounds in ('lower-mid', 'upper-mid', 'both-mid', 'fine7'):
+            for step in ('limit', '3.7mm'):
+                out.append(dict(base, bounds=bounds, order='s', step=step))
+        for order in (1, 2, 3):
+            for bounds in ('whole', 'both-mid'):
+                out.append(dict(base, bounds=bounds, order=order, out=True))
         for step in STEPS:
             for bounds in ('whole', 'both-mid'):
                 out.append(dict(base, step=step, bounds=bounds))
